@@ -111,6 +111,9 @@ fn model_for(occ: &[(char, String)], r: &mut Rng) -> Model {
             _ => {
                 if r.chance(4, 5) {
                     m.vars.insert(n.clone(), r.pick(&vals).clone());
+                } else if !is_builtin(n) && r.chance(1, 2) {
+                    // the variable is unbound but a function of the same name exists: separate namespaces
+                    m.funs.insert(n.clone(), FnModel::Const(RV::Int(300).to_value()));
                 }
             },
         }
@@ -195,22 +198,36 @@ fn check_case(out: &mut Out, ast: &Ast, mode: Parens, r: &mut Rng) {
         })
         .collect();
     let ren = |n: &str| map.get(n).cloned().unwrap_or_else(|| n.to_string());
-    // which classes are renamed: all identifiers at once, or variables and functions through their own iterators
-    let by_class = r.chance(1, 2);
+    // which classes are renamed: all identifiers at once; variables and functions through their own iterators;
+    // only the variables (context variables renamed, functions untouched); only the functions
+    let mode = r.below(4);
+    let by_class = mode == 1;
+    let (ren_vars, ren_funs) = (mode != 3, mode != 2);
     let mut t2 = tree.clone();
-    let renamed = guard(|| {
-        if by_class {
+    let renamed = guard(|| match mode {
+        0 => {
+            for id in t2.iter_identifiers_mut() {
+                *id = ren(id);
+            }
+        },
+        1 => {
             for id in t2.iter_variable_identifiers_mut() {
                 *id = ren(id);
             }
             for id in t2.iter_function_identifiers_mut() {
                 *id = ren(id);
             }
-        } else {
-            for id in t2.iter_identifiers_mut() {
+        },
+        2 => {
+            for id in t2.iter_variable_identifiers_mut() {
                 *id = ren(id);
             }
-        }
+        },
+        _ => {
+            for id in t2.iter_function_identifiers_mut() {
+                *id = ren(id);
+            }
+        },
     });
     if let Err(p) = renamed {
         out.violation("panic", format!("renaming `{}`", src), "returns".into(), api::panic_text(&p));
@@ -218,24 +235,26 @@ fn check_case(out: &mut Out, ast: &Ast, mode: Parens, r: &mut Rng) {
     }
     let mut m2 = Model::new();
     m2.builtins_off = model.builtins_off;
+    let rv = |n: &str| if ren_vars { ren(n) } else { n.to_string() };
+    let rf = |n: &str| if ren_funs { ren(n) } else { n.to_string() };
     for (k, v) in &model.vars {
-        m2.vars.insert(ren(k), v.clone());
+        m2.vars.insert(rv(k), v.clone());
     }
     for (k, f) in &model.funs {
-        m2.funs.insert(ren(k), f.clone());
+        m2.funs.insert(rf(k), f.clone());
     }
     let mut ctx2 = api::ctx_from_model(&m2, &log);
     let got2 = api::eval_tree_mut(&t2, &mut ctx2);
     out.eval();
     out.count("renamings evaluated");
-    let want = rename_got(&base, &ren, &ren);
+    let want = rename_got(&base, &rv, &rf);
     let have = rename_got(&got2, &|n| n.to_string(), &|n| n.to_string());
     let vars2 = api::ctx_vars(&ctx2);
-    let want_vars: BTreeMap<String, RV> = base_vars.iter().map(|(k, v)| (ren(k), v.clone())).collect();
+    let want_vars: BTreeMap<String, RV> = base_vars.iter().map(|(k, v)| (rv(k), v.clone())).collect();
     if want != have || !api::same_vars(&want_vars, &vars2) {
         out.violation(
             "iterators/renaming-changes-result",
-            format!("{}  renamed by {:?} ({})", src, map, if by_class { "variable + function iterators" } else { "iter_identifiers_mut" }),
+            format!("{}  renamed by {:?} ({})", src, map, ["iter_identifiers_mut", "variable + function iterators", "variables only", "functions only"][mode]),
             format!("{} ; context {}", want, api::show_vars(&want_vars)),
             format!("{} ; context {}", have, api::show_vars(&vars2)),
         );
@@ -277,8 +296,8 @@ impl Phase for Random {
         let depth = r.range(1, 12);
         let distinct = r.chance(1, 2);
         let ast = {
-            let vars = ["a", "b", "c", "x"];
-            let funs = ["f", "g", "h", "max", "len", "math::clamp", "str::nope", "ns::f", "math::len", "a::b::c"];
+            let vars = ["a", "b", "c", "x", "f", "g", "total"];
+            let funs = ["f", "g", "h", "max", "len", "math::clamp", "str::nope", "ns::f", "math::len", "a::b::c", "a", "total"];
             let mut g = AstGen {
                 r,
                 vars: &vars,
